@@ -2,7 +2,7 @@
    Directives: ExtrOcamlBasic only (bool, option, unit, list, prod, sumbool, comparison
    mapped to the OCaml types of the same meaning).  N, positive, nat and Byte.byte stay the
    extracted inductive types; there is no Extract Constant and no further Extract Inductive. *)
-From Ztyp Require Import Base Bitlen Bitfields Tree Merkleize Types Spec Reader View Mut Heap Iter Codec Conv VMach IO Alloc FlatAlloc Extras.
+From Ztyp Require Import Base Bitlen Bitfields Tree Merkleize Types Spec Reader View Mut Heap Iter Codec Conv VMach IO IOChain Alloc FlatAlloc Extras.
 Require Extraction.
 Require ExtrOcamlBasic.
 Extraction Language OCaml.
@@ -29,5 +29,5 @@ Extraction "model.ml"
   bytes_marshal_text fixed_bytes_unmarshal big_unmarshal
   v_step v_init v_len h_alloc zero_addr
   bool_backing_from_base bool_subview packed_set packed_val chunk_set_bit chunk_get_bit cw_write_all flat_decode_scoped ew_write_all_eager basic_encode basic_decode codec_sum dr_skip dynamic_bytes_unmarshal bytes_string
-  run_reads ew_write_all one_shot view_deserialize_a foot perbyte flat_decode_a ffoot fperbyte fnew
+  run_reads dr_read_io_chain ew_write_all one_shot view_deserialize_a foot perbyte flat_decode_a ffoot fperbyte fnew
   heap_init h_getter h_setter h_merkle h_abs hm_step hm_alloc h_cell.
